@@ -22,9 +22,10 @@ func init() {
 		},
 		NewCase: func() any { return &MCase{} },
 		Gen:     c04Gen,
+		Setup:   cliSetup,
 		Run: func(env *core.Env, ci any) core.Outcome {
 			c := ci.(*MCase)
-			v := judgeModel(c, canon.Options{})
+			v := judgeModelBoth(env, c, canon.Options{}, 4)
 			return c04Classify(c, v)
 		},
 	})
